@@ -67,7 +67,7 @@ def run(ctx):
     assert [s.name for s in subs] == SUBJECT_NAMES
     max_hist = 6 if ctx.thorough else 2
     nq = 24 if ctx.thorough else 14
-    cap = 40000 if ctx.thorough else 1600
+    cap = 60000 if ctx.thorough else 6000
     qcache = {}
 
     def call(q, o):
